@@ -796,6 +796,9 @@ func main() {
 		} {
 			cases = append(cases, &caseOut{Src: w, From: "witness"})
 		}
+		for _, src := range hxbeh.ReadRegress("c03") {
+			cases = append(cases, &caseOut{Src: src, From: "regress"})
+		}
 		// quick tier: a seed-rotated sixth of the pinned corpus; thorough tier: all of it
 		// (every corpus item the quick tier can see has been classified by a thorough run)
 		for i, src := range hxbeh.InterpTestPrograms() {
@@ -828,7 +831,7 @@ func main() {
 				c.Skip = "parse"
 				continue
 			}
-			if c.From != "witness" {
+			if c.From != "witness" && c.From != "regress" {
 				if ok, why := hxbeh.SafeText(c.Src); !ok {
 					c.Skip = why
 					continue
